@@ -168,7 +168,7 @@ class Arr(Sort):
             s = self.shape[k] if self.shape is not None else None
             if s is None:
                 s = z3.Int(fresh_name('%s.shape%d' % (name, k)))
-                st.pc.append(s >= 0)
+                st.pc.append(z3.And(s >= 0, s < 2**62))   # array extents fit Py_ssize_t
             shape.append(s)
         data = fresh_arr_data(name, self.kind, self.ndim)
         ref = Ref(name)
@@ -215,6 +215,17 @@ class Struct(Sort):
 
     def make(self, ex, st, name):
         return VStruct(self.sname, {a: s.make(ex, st, '%s.%s' % (name, a)) for a, s in self.fields.items()})
+
+
+class PtrTo(Sort):
+    """C pointer to the first element of a fresh array"""
+
+    def __init__(self, arr):
+        self.arr = arr
+
+    def make(self, ex, st, name):
+        from .values import VPtr
+        return VPtr(self.arr.make(ex, st, name), 0)
 
 
 class Vec(Sort):
@@ -297,7 +308,7 @@ class Inline:
 class Contract:
     def __init__(self, file, func, params=None, requires=None, ensures=None, loops=None, instances=None,
                  callees=None, modifies=(), result=None, raises=None, ghost=None, options=None, name=None,
-                 notes=None, attrs=None):
+                 notes=None, attrs=None, checks=None):
         self.file, self.func = file, func
         self.params = params or {}
         self.requires, self.ensures = requires, ensures
@@ -312,6 +323,9 @@ class Contract:
         self.name = name or '%s:%s' % (re.sub(r'^pyiga/|\.pyx?$|\.pxi$', '', file), func)
         self.notes = notes or []
         self.attrs = attrs or {}
+        # checks: [(regex on the source line of a statement, fn(view) -> [(label, formula)])]: obligations that
+        # must hold immediately *before* every statement whose line matches (write-time contracts)
+        self.checks = checks or []
 
     def __repr__(self):
         return '<Contract %s>' % self.name
